@@ -77,7 +77,29 @@ CHECKS["C18"] = ("model_checking", "5/C18",
          "aggregated by class, and TLC requires each class to have exactly the specified answer; long strings per tag, all crypt inputs, "
          "crypt_preferred_method and NULL-vs-preferred gensalt pairs are judged by the trace specifications.",
          "TLC exhaustive class enumeration + complete byte-string sweep judged against the specification", "hash selection = the built configuration (other selections: C19)")
-for p in ["C02", "C08", "C16", "C17", "C19", "C20"]:
+CHECKS["C02"] = ("model_checking", "5/C02",
+         "Cross-release half: the interpretation of the specification's uninterpreted Hash constructor on a corpus (every phrase-length class that "
+         "matters for 64/128-byte blocks and the 16/32/64-byte recycling loops x salt lengths x cost spellings x 8-bit bytes incl. 0x80/0xff x all 16 "
+         "methods incl. yescrypt p>1/t>0, scrypt p>1) is the graph of the released libcrypt.so.1 4.4.33, recorded live and frozen in /verif/golden; TLC "
+         "(TraceXCrypt C02_Released) requires byte identity. Published-algorithm half: the constructions around the numeric cores (streaming, padding, "
+         "HMAC, PBKDF2, DES) are decided by C16/C17's specifications.",
+         "TLC trace validation against the released library's graph as specification constant",
+         "the numeric cores (compression functions, Blowfish, Salsa20/8, pwxform) are not specified in TLA+; per-method algorithm scripts are future spec growth")
+CHECKS["C16"] = ("model_checking", "5/C16",
+         "DigestMC.tla: the streaming machine refines Split(Pad(msg)) for every chunking (exhaustive, scaled block sizes). On the code: for every message "
+         "length around every block boundary (0..1100 in thorough), one-shot / every two-way split / random multi-way splits / alignments 0..15, TLC "
+         "evaluates the standard construction (Digest.tla: padding, length field, IV, word order; Streebog's N and Sigma counters) over the compression "
+         "graph observed through the XCRYPT_VERIF hook and requires the digest to match; HMAC-SHA1/SHA256/Streebog (key lengths 0..200) and "
+         "PBKDF2-HMAC-SHA256 (dkLen 1..100, c up to 50, all salt residues, fast path) are RFC 2104/8018 constructions over facts.",
+         "TLC model checking of the streaming machine + trace validation over a learned compression function",
+         "the per-block compression functions themselves are learned, not specified (pinned by the repository's vectors and by C02)")
+CHECKS["C17"] = ("model_checking", "5/C17",
+         "Des.tla is FIPS 46-3 DES at bit level plus the crypt(3) salt/iteration; TLC checks DecInvertsEnc, ParityIgnored, Complement, SaltZero and "
+         "the FIPS sample on the model, and EVALUATES DES on every recorded block: all weight-1/weight-63 keys and blocks, random pairs, encrypt/decrypt, "
+         "salts over all 24 bits, iteration counts; setkey/encrypt(_r) traces with noise in the ignored bits, interleaved with crypt/gensalt calls, "
+         "are validated with the key tracked per object and for the static area.",
+         "TLC evaluation of a bit-level DES specification on recorded traces", "Des.tla's tables are FIPS 46-3's")
+for p in ["C08", "C19", "C20"]:
     NA.setdefault(p, "check under construction in this round (see DESIGN.md section 9); not claimed until its machinery is committed")
 
 
